@@ -633,7 +633,130 @@ class Coverage:
         try:
             return self.prove()
         except OutsideSubset as e:
-            return Result(UNDECIDED, backend="vcgen", detail=f"outside the coverage subset: {e} (covered by the bounded NaN-poison runs only)")
+            try:
+                return self.prove_counted_columns()
+            except OutsideSubset as e2:
+                return Result(UNDECIDED, backend="vcgen", detail=f"outside the coverage subset: {e}; counted-columns lemma: {e2} (covered by the bounded NaN-poison runs only)")
+
+    def prove_counted_columns(self):
+        """`arr = xp.empty((rows, C))` whose columns are written through a running index J (`arr[:, J] = ...; J += 1`) inside a loop nest B, where C was
+        COUNTED (`C = 0` ... `C += 1`) by an earlier loop nest A with the same headers. Lemma (counting): if A and B have identical loop headers and header-defining
+        assignments, the headers read only objects that nothing in the function stores into, C starts at 0 and is incremented by one exactly once per innermost
+        iteration of A and nowhere else, J starts at 0 right before B and is incremented by one exactly once per innermost iteration of B, after the store, and
+        nowhere else - then B has exactly C innermost iterations and J runs through 0, 1, ..., C - 1: every column is stored once (rows by the full slice)."""
+        fnode, alloc = self.find()
+        arr = self.var
+        call = alloc.value
+        shape = call.args[0] if call.args else None
+        if not (isinstance(shape, ast.Tuple) and len(shape.elts) == 2 and isinstance(shape.elts[1], ast.Name)):
+            raise OutsideSubset("shape is not (rows, <counter name>)")
+        C = shape.elts[1].id
+        block = _block_of(fnode, alloc)
+        rest = block[block.index(alloc) + 1:]
+
+        def nest_path(top, pred):
+            """the chain of For statements from `top` down to the innermost body that contains a statement satisfying pred; None if not unique"""
+            path, node = [], top
+            while True:
+                path.append(node)
+                inner = [x for x in node.body if isinstance(x, ast.For) and any(pred(y) for y in ast.walk(x))]
+                here = [x for x in node.body if pred(x)]
+                if here and not inner:
+                    return path, node.body
+                if len(inner) != 1 or here:
+                    return None, None
+                node = inner[0]
+
+        def is_inc(name):
+            return lambda x: isinstance(x, ast.AugAssign) and isinstance(x.op, ast.Add) and isinstance(x.target, ast.Name) and x.target.id == name \
+                and isinstance(x.value, ast.Constant) and x.value.value == 1
+
+        def stores_to(name):
+            return [x for x in ast.walk(fnode) if (isinstance(x, ast.AugAssign) and isinstance(x.target, ast.Name) and x.target.id == name)
+                    or (isinstance(x, ast.Assign) and any(isinstance(t, ast.Name) and t.id == name for t in ast.walk(ast.Tuple(elts=list(x.targets), ctx=ast.Store())) if isinstance(t, ast.Name) and isinstance(t.ctx, ast.Store)))]
+
+        # nest A: the counter
+        st_c = stores_to(C)
+        inits = [x for x in st_c if isinstance(x, ast.Assign) and isinstance(x.value, ast.Constant) and x.value.value == 0]
+        incs = [x for x in st_c if is_inc(C)(x)]
+        if len(st_c) != 2 or len(inits) != 1 or len(incs) != 1:
+            raise OutsideSubset(f"`{C}` is not a counter (one `= 0`, one `+= 1`)")
+        topA = next((x for x in fnode.body if isinstance(x, ast.For) and any(y is incs[0] for y in ast.walk(x))), None)
+        if topA is None or inits[0] not in fnode.body or fnode.body.index(inits[0]) > fnode.body.index(topA):
+            raise OutsideSubset("counting loop nest not found at the top level of the function after the initialisation")
+        pathA, bodyA = nest_path(topA, lambda x: x is incs[0])
+        # nest B: the writer
+        def is_store(x):
+            if not (isinstance(x, ast.Assign) and len(x.targets) == 1 and isinstance(x.targets[0], ast.Subscript)):
+                return False
+            root, idx = _flatten_subscript(x.targets[0])
+            return isinstance(root, ast.Name) and root.id == arr and len(idx) == 2 and isinstance(idx[0], ast.Slice) and idx[0].lower is None and idx[0].upper is None \
+                and idx[0].step is None and isinstance(idx[1], ast.Name)
+        stores = [x for st in rest for x in ast.walk(st) if is_store(x)]
+        if len(stores) != 1:
+            raise OutsideSubset("not exactly one store `arr[:, J] = ...`")
+        J = _flatten_subscript(stores[0].targets[0])[1][1].id
+        st_j = stores_to(J)
+        jin = [x for x in st_j if isinstance(x, ast.Assign) and isinstance(x.value, ast.Constant) and x.value.value == 0]
+        jinc = [x for x in st_j if is_inc(J)(x)]
+        if len(st_j) != 2 or len(jin) != 1 or len(jinc) != 1 or jin[0] not in rest:
+            raise OutsideSubset(f"`{J}` is not a running index (one `= 0` after the allocation, one `+= 1`)")
+        topB = next((x for x in rest if isinstance(x, ast.For) and any(y is stores[0] for y in ast.walk(x))), None)
+        if topB is None or rest.index(jin[0]) > rest.index(topB):
+            raise OutsideSubset("writing loop nest not found after the initialisation of the running index")
+        pathB, bodyB = nest_path(topB, lambda x: x is stores[0])
+        if pathA is None or pathB is None:
+            raise OutsideSubset("loop nests are not simple chains")
+        if jinc[0] not in bodyB or bodyB.index(jinc[0]) < bodyB.index(stores[0]):
+            raise OutsideSubset("the running index is not incremented after the store in the same innermost body")
+        if any(isinstance(x, (ast.If, ast.While, ast.Try, ast.Break, ast.Continue, ast.Return)) for top in (topA, topB) for x in ast.walk(top)):
+            raise OutsideSubset("conditional control flow inside a loop nest")
+        # identical headers and header-defining assignments
+        def headers(path):
+            hs, names = [], set()
+            for f in path:
+                hs.append((ast.dump(f.target), ast.dump(f.iter)))
+                names |= {x.id for x in ast.walk(f.iter) if isinstance(x, ast.Name)}
+            return hs, names
+        hA, nA = headers(pathA)
+        hB, nB = headers(pathB)
+        if hA != hB:
+            raise OutsideSubset("the two loop nests have different headers")
+        loopvars = {x.id for f in pathA for x in ast.walk(f.target) if isinstance(x, ast.Name)}
+        defs = {}
+        for tag, path in (("A", pathA), ("B", pathB)):
+            for f in path:
+                for x in f.body:
+                    if isinstance(x, ast.Assign) and len(x.targets) == 1 and isinstance(x.targets[0], ast.Name) and x.targets[0].id in (nA - loopvars):
+                        defs.setdefault(x.targets[0].id, {})[tag] = ast.dump(x.value)
+        for n_, d in defs.items():
+            if d.get("A") != d.get("B"):
+                raise OutsideSubset(f"`{n_}` (used in a loop header) is defined differently in the two nests")
+        free = (nA - loopvars - set(defs)) | {x.id for n_ in defs for f in pathA for y in f.body if isinstance(y, ast.Assign) and y.targets[0] is not None
+                                              and isinstance(y.targets[0], ast.Name) and y.targets[0].id == n_ for x in ast.walk(y.value) if isinstance(x, ast.Name)} - loopvars
+        free.discard("range")
+        # nothing in the function stores into (or re-binds) the objects the headers read
+        for x in ast.walk(fnode):
+            tg = x.targets if isinstance(x, ast.Assign) else [x.target] if isinstance(x, (ast.AugAssign, ast.AnnAssign)) else []
+            for t in tg:
+                r = t
+                while isinstance(r, (ast.Subscript, ast.Attribute)):
+                    r = r.value
+                if isinstance(r, ast.Name) and (r.id in free or (r.id in defs and r is not t)):
+                    raise OutsideSubset(f"`{ast.unparse(t)}` is stored into (line {x.lineno}): the loop bounds may differ between the nests")
+        # no read of the array before nest B is complete
+        upto = rest[:rest.index(topB) + 1]
+        for st in upto:
+            for x in ast.walk(st):
+                if isinstance(x, ast.Name) and x.id == arr and isinstance(x.ctx, ast.Load) and x is not _flatten_subscript(stores[0].targets[0])[0]:
+                    raise OutsideSubset(f"the array is read at line {x.lineno} before the writing nest is complete")
+        # calls that receive the header objects could change them: only attribute / item READS and calls of functions on them are present; list them as assumed pure
+        return Result(DISCHARGED, backend="counting lemma on the AST (syntactic premises checked on every run)",
+                      stats=dict(nest_depth=len(pathA), counter=C, running_index=J),
+                      side_conditions=[f"the functions called between the nests and inside them do not modify {sorted(free)} (assumed: they are handed as arguments only to Ylm_real / eval_proj_G / operators)",
+                                       "dictionary look-ups in the loop headers return the same values in both nests (no store into these objects in the function: checked)"],
+                      detail=f"`{arr}` (line {alloc.lineno}): {C} counts the innermost iterations of a loop nest with the same headers as the writing nest; the running index {J} "
+                             f"takes the values 0 .. {C} - 1, each column is stored once, rows by a full slice")
 
     def find(self):
         tree = ast.parse(source_of(self.module))
